@@ -5,7 +5,7 @@ CONSTANTS
   RANKS = {1, 3}
   EPSEXP = {10, 4}
   GUESS = {"none", "fresh", "reused", "zero"}
-  SEEDS = {1}
+  SEEDS = {1, 2}
   BACKENDS = {"py"}
   PREC = {"none", "c", "r"}
   MAXFULL = {0, 500}
